@@ -213,3 +213,94 @@ def k_week_first_day(eng, lunar):
     kid = "14.g/B/lunar-week-first-day" if lunar else "14.a/B/week-first-day"
     r = run_kernel(eng, kid, "14.a", "every month start and length (%d..%d days), every start weekday, every valid index" % K["lens"], build, None, None)
     return _finish(r, holder["ctx"]) if "ctx" in holder else r
+
+
+def k_week_index_in_year(eng):
+    """SolarWeek::get_index_in_year: the number of weeks between this week and the week (same start weekday) that contains January 1 of
+    the year of the week's month.  Days are day numbers (01.b/01.g), weeks are their first days (14.a), stepping a week moves it by 7 days (14.c)."""
+    holder = {}
+
+    class WeekV:
+        def __init__(self, t):
+            self.t = t
+
+    class YearTag(T):
+        __slots__ = ()
+
+    def build(eng):
+        wf = struct_fields(os.path.join(REPO, "src/tyme/solar.rs"), "SolarWeek")
+        fn = M.find_fn(eng.fns, "get_index_in_year", "&SolarWeek")
+        ctx = _ctx(eng, {})
+        ctx.max_unroll = 55
+        holder.update(ctx=ctx)
+        rec = Rec(ctx, "self", "SolarWeek")
+        start = ctx.fresh_value("start", "usize")
+        rec.fields[wf.index("start")] = Obj("Week", start)
+        J = ctx.fresh_value("january_1", "isize")            # day number of January 1 of the year of the week's month
+        L = ctx.fresh_value("year_length", "isize")
+        Lp = ctx.fresh_value("previous_year_length", "isize")
+        M1 = ctx.fresh_value("first_of_the_month", "isize")
+        ML = ctx.fresh_value("month_length", "isize")
+        idx = ctx.fresh_value("week_index", "usize")
+        ynm = ctx.sym("year_of_the_month")
+        ctx.inputs[ynm] = ("Int", 1, 9999)
+        Y = YearTag(ynm, "Int")
+        off = lambda t: "(mod (- (mod (+ %s 1) 7) %s) 7)" % (t, start.s)
+        Fself = T("(+ (- %s %s) (* 7 %s))" % (M1.s, off(M1.s), idx.s), "Int")
+        W0 = "(- %s %s)" % (J.s, off(J.s))
+        model = ctx.model
+        base = model.call
+
+        def call(c, fr, callee, args, path):
+            a = [model.deref(c, x) for x in args]
+            if callee == "SolarWeek::get_first_day":
+                if a[0] is rec:
+                    return True, DayN(Fself)
+                if isinstance(a[0], WeekV):
+                    return True, DayN(a[0].t)
+            if callee == "SolarWeek::get_year" and a[0] is rec:
+                return True, Y
+            if callee == "SolarWeek::get_start" and a[0] is rec:
+                return True, Obj("Week", start)
+            if callee == "SolarWeek::from_ym" and len(a) == 4:
+                if not (isinstance(a[0], YearTag) and isinstance(a[1], T) and a[1].c == 1 and isinstance(a[2], T) and a[2].c == 0 and isinstance(a[3], T)):
+                    raise Unsupported("a week other than week 0 of January of the week's own year is built")
+                return True, WeekV(T("(- %s (mod (- (mod (+ %s 1) 7) %s) 7))" % (J.s, J.s, a[3].s), "Int"))
+            if callee == "<SolarWeek as Tyme>::next" and isinstance(a[0], WeekV) and isinstance(a[1], T):
+                return True, WeekV(T("(+ %s (* 7 %s))" % (a[0].t.s, a[1].s), "Int"))
+            if callee in ("<SolarDay as PartialEq>::ne", "<SolarDay as PartialEq>::eq") and isinstance(a[0], DayN) and isinstance(a[1], DayN):
+                e = "(= %s %s)" % (a[0].t.s, a[1].t.s)
+                return True, T(e if callee.endswith("eq") else "(not %s)" % e, "Bool")
+            if callee == "SolarDay::from_ymd" and len(a) == 3 and isinstance(a[0], YearTag) and isinstance(a[1], T) and a[1].c == 1 and isinstance(a[2], T) and a[2].c == 1:
+                return True, DayN(J)
+            if callee == "SolarDay::get_week" and isinstance(a[0], DayN):
+                return True, Obj("Week", T("(mod (+ %s 1) 7)" % a[0].t.s, "Int"))
+            if callee == "<SolarDay as Tyme>::next" and isinstance(a[0], DayN) and isinstance(a[1], T):
+                return True, DayN(T("(+ %s %s)" % (a[0].t.s, a[1].s), "Int"))
+            if callee == "SolarDay::subtract" and isinstance(a[0], DayN) and isinstance(a[1], DayN):
+                return True, T("(- %s %s)" % (a[0].t.s, a[1].t.s), "Int")
+            if callee == "SolarDay::get_index_in_year" and isinstance(a[0], DayN):
+                t = a[0].t.s
+                return True, T("(ite (< %s %s) (- %s (- %s %s)) (ite (< %s (+ %s %s)) (- %s %s) (- %s (+ %s %s))))" % (t, J.s, t, J.s, Lp.s, t, J.s, L.s, t, J.s, t, J.s, L.s), "Int")
+            if callee == "AbstractCulture::index_of" and len(a) == 3 and isinstance(a[1], T) and isinstance(a[2], T) and a[2].c:
+                return True, smod(a[1], a[2].c)
+            return base(c, fr, callee, args, path)
+        model.call = call
+        paths = ctx.run(fn, [("refrec", rec)])
+        count = "(div (+ %s %s 6) 7)" % (off(M1.s), ML.s)
+        pre = ["(<= 0 %s 6)" % start.s, "(<= 1721424 %s 5373484)" % J.s, "(<= 355 %s 366)" % L.s, "(<= 355 %s 366)" % Lp.s, "(<= 21 %s 31)" % ML.s,
+               "(<= %s %s)" % (J.s, M1.s), "(<= (+ %s %s) (+ %s %s))" % (M1.s, ML.s, J.s, L.s), "(<= 0 %s)" % idx.s, "(< %s %s)" % (idx.s, count)]
+
+        def shape(p):
+            return None if getattr(p, "cut", False) or isinstance(p.ret, T) else "result is not a number"
+        return ctx, paths, pre, (lambda p: [] if getattr(p, "cut", False) else [("weeks-since-the-week-of-january-1", "(= (* 7 %s) (- %s %s))" % (p.ret.s, Fself.s, W0))]), shape
+
+    def replay(eng, model):
+        nat = eng.native("week_index_scan")
+        if nat in ("NONE", "PANIC", "UNKNOWN", ""):
+            return nat == "PANIC", "native scan: " + (nat or "no output")
+        return True, "index in year is not the number of weeks since the week containing January 1: " + nat
+
+    r = run_kernel(eng, "14.d/B/week-index-in-year", "14.d", "every year start and length (355..366), every month inside the year (21..31 days), every start weekday, every valid index; search loop unrolled 55 times with the bound proved",
+                   build, None, replay)
+    return _finish(r, holder["ctx"]) if "ctx" in holder else r
